@@ -148,8 +148,9 @@ class Ctx:
             rc, out, dt = sh("timeout 1500 make -k -j%d" % (os.cpu_count() or 4), timeout=1600, cwd=COQ)
             self.notes["coq_make_s"] = round(dt, 1)
             # only this property's own statement file (and hence everything it depends on) must have built
-            ok = os.path.exists(os.path.join(COQ, "Properties", self.prop + ".vo")) and \
-                os.path.getmtime(os.path.join(COQ, "Properties", self.prop + ".vo")) >= os.path.getmtime(os.path.join(COQ, "Properties", self.prop + ".v"))
+            targets = ["Properties/%s.vo" % self.prop] + ["%s.vo" % d for d in getattr(self, "coq_deps", [])]
+            rcq, _, _ = sh("make -q " + " ".join(targets), timeout=120, cwd=COQ)
+            ok = rcq == 0 and all(os.path.exists(os.path.join(COQ, t)) for t in targets)
             if rc != 0:
                 self.notes["coq_make_other_failures"] = out[-600:]
             return ok, out
@@ -175,8 +176,17 @@ class Ctx:
                     bad.append("%s: %s" % (os.path.relpath(p, COQ), m.group(0)))
         return bad
 
-    def proof_layer(self, allowed_axioms=()):
+    def proof_layer(self, allowed_axioms=(), coq_deps=()):
+        """coq_deps: Corr/... files (without extension) the generated cases import; they must be up to date too."""
         allowed = set(allowed_axioms)
+        self.coq_deps = list(coq_deps)
+        t_pl = time.time()
+        try:
+            return self._proof_layer(allowed)
+        finally:
+            self.notes["proof_layer_wall_s"] = round(time.time() - t_pl, 1)
+
+    def _proof_layer(self, allowed):
         ok, out = self.coq_build()
         propfile = os.path.join(COQ, "Properties", self.prop + ".v")
         names = property_theorems(propfile)
@@ -218,7 +228,7 @@ class Ctx:
         path = os.path.join(self.work, name + ".v")
         with open(path, "w") as f:
             f.write(text)
-        rc, out, dt = sh("ulimit -s unlimited 2>/dev/null; timeout %d coqc -Q %s Ticc -w none %s" % (timeout, COQ, path),
+        rc, out, dt = sh("ulimit -s 4000000 2>/dev/null; timeout %d coqc -Q %s Ticc -w none %s" % (timeout, COQ, path),
                          timeout=timeout + 20, cwd=self.work)
         self.notes.setdefault("coqc_cases_s", 0)
         self.notes["coqc_cases_s"] = round(self.notes["coqc_cases_s"] + dt, 1)
@@ -227,8 +237,11 @@ class Ctx:
     def coq_eval_many(self, jobs, timeout=600):
         """jobs: list of (name, text); run in parallel; return list of (ok, out)."""
         from concurrent.futures import ThreadPoolExecutor
+        t0 = time.time()
         with ThreadPoolExecutor(max_workers=min(len(jobs), os.cpu_count() or 4) or 1) as ex:
-            return list(ex.map(lambda j: self.coq_eval(j[0], j[1], timeout), jobs))
+            res = list(ex.map(lambda j: self.coq_eval(j[0], j[1], timeout), jobs))
+        self.notes["coq_eval_wall_s"] = round(self.notes.get("coq_eval_wall_s", 0) + time.time() - t0, 1)
+        return res
 
     # ---- bookkeeping
     def count(self, stream, n=1):
@@ -244,6 +257,14 @@ class Ctx:
 
     def violation(self, kind, what, replay, no_input=False):
         self.violations.append({"kind": kind, "what": what, "replay": replay, "no_input": no_input})
+
+    def tie_mismatch(self, corr, what, detail):
+        """model and implementation disagree on an input: the correspondence `corr` no longer checks.
+        This is not by itself a failing input for the property (the monitors decide that)."""
+        d = dict(detail)
+        d["correspondence"] = corr
+        d["note"] = "first disagreeing case(s) of the correspondence; the property monitor did not fail on it unless a separate violation says so"
+        self.violation("tie:" + corr, what, d, no_input=True)
 
     def finding(self, key, what, replay):
         """A concrete failing input was found; decide known finding vs violation."""
@@ -430,9 +451,9 @@ class LineCoverage:
             fn = code.co_filename
             if fn.startswith(SRC):
                 self.hit.add((os.path.relpath(fn, SRC), line))
-                return None
-            return mon.DISABLE
+            return mon.DISABLE   # one report per location is all coverage needs
         mon.register_callback(self.tool, mon.events.LINE, on_line)
+        mon.restart_events()
         mon.set_events(self.tool, mon.events.LINE)
         return self
 
